@@ -26,7 +26,7 @@ RULE = ('structured: random catalogs (1..5 pages, nested page-tree nodes, fonts,
         'an undefined id; every k-th prefix of the file; nesting 49/50/51/5000; byte flips; sample PDFs. '
         'non-trivial = distinct file that gets past the header and xref (i.e. loads at least one object) judged by reaching '
         'a stage beyond the loader OR being rejected after the loader; measured as: file contains "obj" and "xref"')
-TRUSTED = ['python renderer of documents (props/c01.py, props/loaderlib.py)', 'harness/src/bin/c01.rs (spawns the real binary, 8 s watchdog)']
+TRUSTED = ['python renderer of documents (props/c01.py, props/loaderlib.py) — for modelled cases the object context handed to the model is validated on every case against what the REAL parse_data loads from the rendered file (harness/src/bin/c01.rs: ctxbad:… otherwise)', 'harness/src/bin/c01.rs (spawns the real binary, 8 s watchdog)']
 ASSUMPTIONS = ['runtime resources (stack size, allocator, zlib/jpeg decoders on hostile data) are exercised, not proved']
 
 EXTREMES = [-2 ** 63, -1, 0, 1, 2, 7, 8, 9, 16, 64, 255, 2 ** 31, 2 ** 32, 2 ** 63 - 1]
